@@ -309,13 +309,8 @@ impl Lexer {
 
     // The lexer scans by char index, but every position it hands out is a byte offset.
     fn byte_pos(&self, char_index: usize) -> usize {
-        let nchars = self.chars.len();
-        if char_index <= nchars {
-            self.byte_offsets[char_index]
-        } else {
-            // past the end of the source (the EOF token)
-            self.byte_offsets[nchars] + (char_index - nchars)
-        }
+        // never past the end of the source
+        self.byte_offsets[char_index.min(self.chars.len())]
     }
 
     fn span(&self, lo: usize, hi: usize) -> Span {
@@ -609,7 +604,12 @@ pub(crate) fn tokenize_file(ctx: &mut StaticsContext, file_id: FileId) -> Vec<To
         }
     }
 
-    lexer.emit(TokenKind::Eof);
+    // the EOF token is an empty span at the end of the source
+    let eof_span = lexer.span(lexer.chars.len(), lexer.chars.len());
+    lexer.tokens.push(Token {
+        kind: TokenKind::Eof,
+        span: eof_span,
+    });
 
     lexer.into_tokens()
 }
